@@ -18,17 +18,27 @@ Definition acc0 : acc := {| a_count := 0; a_sum := 0; a_sumsq := 0; a_min := Non
 Definition value_to_num (v : val) : option Z :=
   match v with VInt z | VFlt z => Some z | _ => None end.
 
-(** compare_for_min(current, new): does [new] replace [current]? *)
+(** compare_for_min(current, new): does [new] replace [current]?  Since e7fe7cd integers and floats
+    are compared as numbers ([a as f64]; exact on the modelled values). *)
 Definition lt_min (cur : option val) (new : val) : bool :=
   match cur, new with
   | None, _ => true
-  | Some (VInt a), VInt b | Some (VFlt a), VFlt b | Some (VStr a), VStr b => b <? a
+  | Some (VInt a), VInt b | Some (VFlt a), VFlt b | Some (VStr a), VStr b
+  | Some (VInt a), VFlt b | Some (VFlt a), VInt b => b <? a
   | _, _ => false
   end.
 Definition gt_max (cur : option val) (new : val) : bool :=
   match cur, new with
   | None, _ => true
-  | Some (VInt a), VInt b | Some (VFlt a), VFlt b | Some (VStr a), VStr b => a <? b
+  | Some (VInt a), VInt b | Some (VFlt a), VFlt b | Some (VStr a), VStr b
+  | Some (VInt a), VFlt b | Some (VFlt a), VInt b => a <? b
+  | _, _ => false
+  end.
+(** before e7fe7cd: values of different kinds never replace each other *)
+Definition lt_min_pre (cur : option val) (new : val) : bool :=
+  match cur, new with
+  | None, _ => true
+  | Some (VInt a), VInt b | Some (VFlt a), VFlt b | Some (VStr a), VStr b => b <? a
   | _, _ => false
   end.
 
@@ -80,13 +90,28 @@ Fixpoint flatten (t : mtree) : list val :=
 Fixpoint eval (t : mtree) : acc :=
   match t with Leaf vs => fold_add vs acc0 | Node l r => merge (eval l) (eval r) end.
 
+(** MIN before e7fe7cd, as a fold and as a merge of two folds *)
+Definition min_step_pre (m : option val) (v : val) : option val :=
+  match v with VNull => m | _ => if is_none m || lt_min_pre m v then Some v else m end.
+Definition min_fold_pre (vs : list val) : option val := fold_left min_step_pre vs None.
+Definition min_merge_pre (a b : option val) : option val :=
+  match b with Some om => if lt_min_pre a om then Some om else a | None => a end.
+
+(** comparability class: 0 = NULL, Int64 and Float64 are one class (numbers) *)
+Definition cls (v : val) : nat := match v with VFlt _ => 2%nat | _ => kind v end.
 (** all non-null values are of one comparability class *)
 Definition uniformb (vs : list val) : bool :=
+  match filter (fun v => negb (cls v =? 0)%nat) vs with
+  | [] => true
+  | v :: t => forallb (fun w => (cls w =? cls v)%nat) t
+  end.
+(** all non-null values are of one kind (integers and floats apart) *)
+Definition uniformb_kind (vs : list val) : bool :=
   match filter (fun v => negb (kind v =? 0)%nat) vs with
   | [] => true
   | v :: t => forallb (fun w => (kind w =? kind v)%nat) t
   end.
-(** finding class C17-K2: the column mixes value kinds *)
+(** finding class C17-K12 (what is left of C17-K2): the column mixes comparability classes *)
 Definition k_mixed_kinds (vs : list val) : bool := negb (uniformb vs).
 
 Definition oval_eqb (a b : option val) : bool :=
